@@ -1,5 +1,8 @@
 import Driver.Wire
 import PlatypusModel.Model.Gray
+import PlatypusModel.Model.Dominance
+import PlatypusModel.Model.Constraint
+import PlatypusModel.Model.PyFloat
 open Wire Platypus
 
 namespace Ops
@@ -21,8 +24,77 @@ def opsGray (op : String) : Option (P String) :=
       pure (match decode w b with | some r => toString r | none => "err:index")
   | _ => none
 
+/-- per-element trace of an insertion history: `flag:ids` after every add -/
+def archiveTrace {σ} (cmp : σ → σ → Int) (getId : σ → Nat) (init : List σ) (xs : List σ) : String :=
+  let step := fun (st : List σ × List String) (s : σ) =>
+    let r := archiveAdd cmp st.1 s
+    (r.1, s!"{if r.2 then 1 else 0}:{showIds (r.1.map getId)}" :: st.2)
+  let (_, out) := xs.foldl step (init, [])
+  if out.isEmpty then "-" else " ".intercalate out.reverse
+
+def opsDominance (op : String) : Option (P String) :=
+  match op with
+  | "pareto" => some do
+      let c ← bool; let dirs ← list bool; let a ← solE; let b ← solE
+      pure (toString (paretoCompare c dirs a b))
+  | "archive" => some do
+      let c ← bool; let dirs ← list bool; let xs ← list solE
+      pure (archiveTrace (paretoCompare c dirs) (·.id) [] xs)
+  | _ => none
+
+def hexVal (c : Char) : Option Nat :=
+  if '0' ≤ c && c ≤ '9' then some (c.toNat - '0'.toNat)
+  else if 'a' ≤ c && c ≤ 'f' then some (c.toNat - 'a'.toNat + 10) else none
+
+/-- characters as a '.'-separated list of hexadecimal code points ("-" = empty) -/
+def chars : P (List Char) := do
+  let t ← tok
+  if t == "-" then pure [] else
+  (t.splitOn ".").mapM fun h =>
+    match h.toList.foldlM (fun acc c => (hexVal c).map (acc * 16 + ·)) 0 with
+    | some n => pure (Char.ofNat n)
+    | none => throw "bad-op"
+
+def showChars (l : List Char) : String :=
+  if l.isEmpty then "-" else ".".intercalate (l.map fun c => String.ofList (Nat.toDigits 16 c.toNat))
+
+def opTok : P Op := do
+  match Op.ofChars? (← tok).toList with
+  | some o => pure o
+  | none => throw "bad-op"
+
+def canonZero (x : Float) : Float := if x == 0.0 then 0.0 else x
+
+def opsConstraint (op : String) : Option (P String) :=
+  match op with
+  | "cparse" => some do
+      let cs ← chars
+      pure (match parseChars (fun t => some t) cs with
+        | .ok o t => s!"ok {o.toString} {showChars t}"
+        | .error => "error")
+  | "violF" => some do
+      let o ← opTok; let d ← flt; let x ← flt; let y ← flt
+      pure (showFlt (canonZero (o.viol d x y)))
+  | "violQ" => some do
+      let o ← opTok; let d ← rat; let x ← rat; let y ← rat
+      pure (showRat (o.viol d x y))
+  | "totalF" => some do
+      let d ← flt
+      let items ← list (do let o ← opTok; let y ← flt; let x ← flt; let isInt ← bool; pure (o, y, x, isInt))
+      let vs := items.map fun (o, y, x, isInt) =>
+        let v := pyAbs (o.viol d x y)
+        if isInt then PyItem.int v.toInt64.toInt else PyItem.flt v
+      let tot := (pySum vs).toFloat
+      pure s!"{showFlt (canonZero tot)} {if tot == 0.0 then 1 else 0}"
+  | "totalQ" => some do
+      let d ← rat
+      let cs ← list (do let o ← opTok; let y ← rat; pure (o, y))
+      let xs ← list rat
+      pure s!"{showRat (totalViolation d cs xs)} {if feasible d cs xs then 1 else 0}"
+  | _ => none
+
 def dispatch (op : String) (args : List String) : Except String String :=
-  match opsGray op with
+  match (opsGray op <|> opsDominance op <|> opsConstraint op) with
   | some p => Wire.run p args
   | none => .error "bad-op"
 
